@@ -2,7 +2,7 @@
    non-vacuity Examples at the end. *)
 From Coq Require Import String List ZArith Bool.
 From Verif Require Import Gen.Gen_consts Gen.Gen_funcs
-  C13.Model C13.Spec C13.Codec C13.Check C13.Proofs C13.Proofs_mutate C13.Proofs_stream.
+  C13.Model C13.Spec C13.Codec C13.Check C13.Proofs C13.Proofs_mutate C13.Proofs_codec C13.Proofs_stream.
 Import ListNotations.
 Open Scope Z_scope.
 
@@ -172,7 +172,61 @@ Theorem c13_idempotent_create : forall e ps p p1 p3,
 Proof. exact readmit_create. Qed.
 Print Assumptions c13_idempotent_create.
 
-(* what the driver runs on the mutate stream *)
-Theorem c13_mutate_stream_partial : forall inp, prop_mutate_core inp = 0.
-Proof. exact mutate_stream_core. Qed.
-Print Assumptions c13_mutate_stream_partial.
+(* the same with lookups instead of list equality on the labels: whatever the re-applied
+   profiles do to labels that carry no identity, the rest of the pod is unchanged *)
+Theorem c13_idempotent_create_sem : forall e ps p p1 p3,
+  admit_pod e OP_CREATE ps p = Some p1 ->
+  admit_pod e OP_CREATE ps p1 = Some p3 ->
+  lget K_QOS (p_labels p3) = lget K_QOS (p_labels p1) ->
+  lget K_PCLASS (p_labels p3) = lget K_PCLASS (p_labels p1) ->
+  p_prio p3 = p_prio p1 ->
+  translating e ps p1 = translating e ps p ->
+  p3 = set_labels (p_labels p3) p1.
+Proof. exact readmit_create_sem. Qed.
+Print Assumptions c13_idempotent_create_sem.
+
+(* what the driver runs on the mutate stream: the decision procedure, including the wire
+   codec of the observable, accepts the model's own observable for every input whose profile
+   selectors look only at observed label keys *)
+Theorem c13_mutate_stream : forall inp,
+  wf_mutate inp = true -> prop_mutate inp (run_mutate inp) = 0.
+Proof. exact mutate_stream_holds. Qed.
+Print Assumptions c13_mutate_stream.
+
+(* the observable codec loses nothing the observation contains *)
+Theorem c13_codec_roundtrip : forall p r, dec_obs_pod (enc_pod p ++ r) = (proj_pod p, r).
+Proof. exact dec_obs_pod_enc. Qed.
+Print Assumptions c13_codec_roundtrip.
+
+(* ================================================================== non-vacuity *)
+Example ex_admitted : allowed false OP_CREATE ex_lsr_pod ex_lsr_pod = true.
+Proof. vm_compute. reflexivity. Qed.
+Example ex_rejected : validate false OP_CREATE ex_be_prod_pod ex_be_prod_pod = E_PAIR_BE.
+Proof. vm_compute. reflexivity. Qed.
+Example ex_update_rejected :
+  validate false OP_UPDATE ex_be_prod_pod ex_lsr_pod = E_IMMUT_QOS.
+Proof. vm_compute. reflexivity. Qed.
+Example ex_ext_name : ext_name PriorityBatch R_CPU = Some R_BCPU /\ ext_name PriorityMid R_MEM = Some R_MMEM.
+Proof. vm_compute. split; reflexivity. Qed.
+(* a Create admission that translates (0.0005 CPU -> 1 milli-core, limit-only container gets
+   its request) and writes the annotation *)
+Example ex_translated :
+  admit_pod ex_env OP_CREATE [ex_profile] ex_batch_pod = Some ex_batch_pod_admitted
+  /\ translating ex_env [ex_profile] ex_batch_pod = true.
+Proof. vm_compute. split; reflexivity. Qed.
+(* the hypotheses of c13_idempotent_create are satisfiable *)
+Example ex_readmit_create :
+  admit_pod ex_env OP_CREATE [ex_profile] ex_batch_pod_admitted = Some ex_batch_pod_admitted
+  /\ translating ex_env [ex_profile] ex_batch_pod_admitted = translating ex_env [ex_profile] ex_batch_pod.
+Proof. vm_compute. split; reflexivity. Qed.
+(* a non-trivial wire input (the pod of ex_translated) satisfying the hypothesis of c13_mutate_stream *)
+Example ex_wf_input :
+  let inp := [102; 1; 0; 0; 0; 0; 1; 1; 0; 0; 0; 1; 0; 0; 0; 0; 0; 0; 0; 0; 0; 2; 5000; 0; 0;
+              1; 0; 2; 66; 69; 0; 0; 0; 1; 0; 1; 0; 500; 1; 0; 2; 0; 2; 0; 1500; 2; 1; 1024; 3;
+              1; 0; 2; 3; 0; 0; 1; 1; 2048; 3; 1; 0; 100; 2; 0] in
+  wf_mutate inp = true /\ nontrivial_mutate inp = true
+  /\ run_mutate inp = run_mutate_body (tl inp)
+  /\ (let '(e, ps, p) := dec_mutate (tl inp) in
+      admit_pod e OP_CREATE ps p = admit_pod ex_env OP_CREATE [ex_profile] ex_batch_pod
+      \/ enc_result (admit_pod e OP_CREATE ps p) = enc_result (Some ex_batch_pod_admitted)).
+Proof. vm_compute. repeat split. right. reflexivity. Qed.
